@@ -371,12 +371,19 @@ def finish(mod, pid, tier, seed, results, dead, wall, n_shards) -> int:
         "wall_s": round(wall, 2),
         "violations": len(new_sigs),
     }
-    (ROOT / "evidence").mkdir(exist_ok=True)
     text = json.dumps(evidence, indent=1, default=repr)
-    (ROOT / "evidence" / f"{pid}.json").write_text(text)
-    # a per-tier copy, so that the last thorough run stays visible after a later quick run
-    (ROOT / "evidence" / tier).mkdir(exist_ok=True)
-    (ROOT / "evidence" / tier / f"{pid}.json").write_text(text)
+    if os.environ.get("VERIF_SRC"):
+        # a run against a scratch copy of the sources (deliberate break, seeded change, proposed repair):
+        # never overwrite the evidence of /repo itself
+        edir = ROOT / "evidence" / "_scratch"
+        edir.mkdir(parents=True, exist_ok=True)
+        (edir / f"{pid}.json").write_text(text)
+    else:
+        (ROOT / "evidence").mkdir(exist_ok=True)
+        (ROOT / "evidence" / f"{pid}.json").write_text(text)
+        # a per-tier copy, so that the last thorough run stays visible after a later quick run
+        (ROOT / "evidence" / tier).mkdir(exist_ok=True)
+        (ROOT / "evidence" / tier / f"{pid}.json").write_text(text)
     _validate(evidence)
 
     for ln in lines:
